@@ -121,6 +121,32 @@ def run(ctx: core.Ctx):
                     ops.append((c["py"], f["name"], t, "OK", rv, conv, tag))
                 except Exception as e:  # noqa: BLE001
                     ops.append((c["py"], f["name"], t, "R", type(e).__name__, conv, tag))
+            if f["get"]:
+                # the observation point the property names: the attribute of a real subunit object after the device reported the text
+                # (fresh object per function: whatever the text, "" included, the attribute then reads its decoding)
+                from ..realobj import StubConnection
+                from ynca.connection import YncaProtocolStatus as _St
+                sample = [("empty", "")] + [x for x in texts if x[0] == "member"][:3] + [x for x in texts if x[0] == "recorded"][:2] + [x for x in texts if x[0] == "random"][:2]
+                for tag, t in sample:
+                    conn_ = StubConnection()
+                    obj_ = cls(conn_)
+                    try:
+                        want = ("OK", conv.to_value(t))
+                    except Exception:  # noqa: BLE001
+                        want = ("R", None)
+                    try:
+                        conn_.deliver(_St.OK, c["id"], f["name"], t)
+                        got = getattr(obj_, f["attr"])
+                    except Exception as e:  # noqa: BLE001
+                        ctx.violation(f"{c['py']}.{f['attr']}: the report {f['name']}={t!r} raised {type(e).__name__} in the message handler / on reading the attribute",
+                                      {"path": "attribute", "class": c["py"], "function": f["name"], "text": t}, {"kind": "attribute-raises"})
+                        continue
+                    ctx.case(("attr", c["py"], f["name"], t))
+                    ctx.count("attribute_reads")
+                    exp = want[1] if want[0] == "OK" else None
+                    if got != exp or type(got) is not type(exp):
+                        ctx.violation(f"{c['py']}.{f['attr']} reads {got!r} after the device reported {f['name']}={t!r}; the decoding of that text is {exp!r}",
+                                      {"path": "attribute", "class": c["py"], "function": f["name"], "text": t}, {"kind": "attribute-not-decoding", "tag": tag})
             for E in conv_enums(conv, []):
                 for m in E:
                     try:
